@@ -39,6 +39,9 @@ pub struct LayoutOpts {
     pub call_sugar: bool,
     pub multiline: bool,
     pub trailing_newline: bool,
+    /// the target of a compound assignment is written without comments and line breaks inside it
+    /// (known finding C04-compound-target-over-several-lines)
+    pub plain_compound_targets: bool,
 }
 
 impl LayoutOpts {
@@ -55,6 +58,7 @@ impl LayoutOpts {
             call_sugar: true,
             multiline: true,
             trailing_newline: false,
+            plain_compound_targets: false,
         }
     }
 
@@ -71,6 +75,7 @@ impl LayoutOpts {
             call_sugar: false,
             multiline: false,
             trailing_newline: true,
+            plain_compound_targets: false,
         }
     }
 }
